@@ -1128,7 +1128,7 @@ class C12Check(_MolCheck):
 
 
 class C02Check(_MolCheck):
-    id = 'C02'
+    id = 'C02M'
     focus = 'C02'
     rule = ('World M part: the ITP writer observes states that editing histories produce (sparse/negative/unordered keys, atom ids absent, '
             'permuted or partial, guards, groups, versions, impropers, virtual_sitesn); the text is read back by an independent '
